@@ -36,7 +36,9 @@ RULE = (
     "inside each flush after every byte count that had reached the OS. Oracle, evaluated in a fresh process per "
     "crash point: a new optimizer on the directory answers the same query "
     "with a complete tree of that query and does not raise; if it ran no "
-    "trial its path equals the old or the new stored answer exactly; entries "
+    "trial its path equals the old or the new stored answer exactly; a SECOND "
+    "later process is then served, without failing and without searching, "
+    "what the first one stored; entries "
     "stored before the crash are still served under cache_only with their "
     "old path. Non-trivial = crash point strictly after the first and "
     "before the last mutation (a partially performed store). Distinct = "
@@ -445,6 +447,27 @@ def run_scenario(spec, state=None, points=None, stop_at_first=True):
                         pv.append(
                             f"{desc}: later process was served {r['path']} without searching; "
                             f"stored answers are {allowed}"
+                        )
+            # --- a second later process: whatever the first one did while
+            # recovering (searching again, storing, promoting left-overs) must
+            # leave the directory good for the next one as well
+            if not pv and r is not None:
+                code, r3 = do_search(c, reader_split, spec["seed_new"] + 2000, q_new)
+                if code != 0 or r3 is None or "raised" in (r3 or {}):
+                    pv.append(f"{desc}: the SECOND later process on the directory fails: {r3 if r3 else 'exit ' + str(code)}")
+                else:
+                    if not (r3["complete"] and r3["N"] == len(q_new[0]) and r3["inputs_ok"]):
+                        pv.append(f"{desc}: second later process got a tree that is not a complete tree of the query")
+                    allowed3 = [new["path"], r["path"]] + ([old["path"]] if (old and scenario == "overwrite") else [])
+                    if r3["trials"] == 0 and r3["path"] not in allowed3:
+                        pv.append(
+                            f"{desc}: second later process was served {r3['path']} without searching; "
+                            f"stored answers are {allowed3}"
+                        )
+                    if r3["trials"] != 0 and reader_split == split:
+                        pv.append(
+                            f"{desc}: second later process searched again ({r3['trials']} trials) although the first "
+                            "later process had just answered (and stored) the same query"
                         )
             # --- entries stored before the crash
             if old is not None and not pv and scenario == "second":
